@@ -94,7 +94,7 @@ def run_scenario(run, e4, sc):
         # stop before the new one is ready - the first to exit must still leave the sockets usable by the other
         settings["preload_app"] = True
         app_source = e4.APP_SOURCE.replace("import os, sys, time, signal, json\n",
-                                           "import os, sys, time, signal, json\nif os.environ.get('GUNICORN_PID'):\n    time.sleep(1.5)\n", 1)
+                                           "import os, sys, time, signal, json\nif os.environ.get('GUNICORN_PID'):\n    time.sleep(3.0)\n", 1)
     if hist == "H7":
         settings["daemon"] = True       # WINCH only acts on a daemonized master
     srv = e4.Server("c14", worker_class=wc, workers=nworkers, settings=settings, bind=sc["bind"], app_source=app_source)
